@@ -24,6 +24,16 @@ Outside what the model describes — such texts are counted (`c16text_skipped:*`
     decodes escapes / rejects the literal; CharLexer interns the raw text between the quotes);
   - a repeated key inside one struct literal (CheckModel counts lists inside lists over all
     occurrences of a key, json.loads keeps the last);
+  - more than 100 nested brackets / '!' in a row (`deep_nesting`): the interpreter's recursion limit,
+    which the model does not have, decides there.  Such texts are NOT compared with the model (it
+    accepts them: Properties/C16text.v::C16_text_example_deep_nesting) but are still run on the
+    implementation, which must return a verdict without raising, valid exactly when it printed
+    nothing.  Finding D29-deep-nesting-raises (fixed in 6d2e0d4, witness
+    corpus/C16-text-deep-nesting.json): from about 246 levels on parse_string raised
+    RecursionError, e.g. on "Task productionTask\\n    Loop While " + "!" * 300 +
+    "true\\n        Move\\nEnd\\n"; since the repair it prints "The program is nested too deeply"
+    and answers invalid.  Every run generates '!'-chains, parentheses, nested JSON objects and
+    nested JSON lists of 250 / 400 / 1000 levels;
   - INTEGER lexemes of more than 5 digits (unary nat in the model's token), JSON numbers longer
     than 40 characters or with an exponent of more than 3 digits (evaluation cost only).
 Names travel as an interning table (UTF-8 text in hexadecimal -> number), 'productionTask' = 0,
@@ -45,7 +55,8 @@ HEADER = ("From PFDL Require Import TextPipeline.\nFrom PFDL.Front Require Impor
           "From Coq Require Import String List.\nImport ListNotations.\nOpen Scope string_scope.\n"
           "Open Scope nat_scope.\nSet Printing Depth 1000000.\nSet Printing Width 200.\n")
 MAX_INT_DIGITS = 5
-MAX_TEXT = 40000          # characters; longer texts are cut out of the sample (evaluation cost)
+MAX_TEXT = 40000
+MAX_NESTING = 100         # beyond: the interpreter's recursion limit decides (D29), implementation-only judgement          # characters; longer texts are cut out of the sample (evaluation cost)
 
 
 def hexs(s):
@@ -70,11 +81,27 @@ def _impl_one(text):
 # ----------------------------------------------------------------------------------------
 # what lies outside the model (decided on the real lexer's tokens)
 # ----------------------------------------------------------------------------------------
+def nesting_depth(text):
+    """brackets open at the same time, plus the longest run of '!' (the generated parser, the
+    visitor and json.loads recurse once or several times per level)"""
+    depth = best = 0
+    for c in text:
+        if c in "([{":
+            depth += 1
+            best = max(best, depth)
+        elif c in ")]}" and depth > 0:
+            depth -= 1
+    run = max((len(m.group(0)) for m in re.finditer(r"(?:!\s*)+", text)), default=0)
+    return best + run
+
+
 def outside_model(text):
     """None, or the reason why the text is not compared"""
     import front_chars
     if len(text) > MAX_TEXT:
         return "long"
+    if nesting_depth(text) > MAX_NESTING:
+        return "deep_nesting"
     try:
         text.encode("utf-8")
     except UnicodeEncodeError:
@@ -209,6 +236,33 @@ def judge(impl, model):
     return None
 
 
+def judge_impl_only(impl):
+    """texts beyond the model (deep nesting): a verdict without raising, valid <-> nothing printed"""
+    if impl["exc"] is not None:
+        return "parse_string raised %s on a deeply nested text instead of returning a verdict" % impl["exc"]
+    if impl["valid"] not in (True, False):
+        return "parse_string returned %r as verdict" % (impl["valid"],)
+    if impl["valid"] != (not impl["printed"]):
+        return "verdict %s but output %r" % (impl["valid"], impl["out"][:200])
+    if impl["valid"] and not impl["process"]:
+        return "verdict valid without a Process"
+    return None
+
+
+def deep_texts():
+    """[(class, text)]: nesting far beyond what the interpreter's recursion limit allows"""
+    out = []
+    for n in (250, 400, 1000):
+        out.append(("deep_not", "Task productionTask\n    Loop While " + "!" * n + "true\n        Move\nEnd\n"))
+        out.append(("deep_paren", "Task productionTask\n    Loop While " + "(" * n + "true" + ")" * n
+                    + "\n        Move\nEnd\n"))
+        out.append(("deep_object", "Struct Sn\n    a: number\nEnd\nTask productionTask\n    Sv\n        In\n"
+                    "            Sn\n            " + '{"a": ' * n + "1" + "}" * n + "\nEnd\n"))
+        out.append(("deep_list", "Struct Sn\n    a: number[]\nEnd\nTask productionTask\n    Sv\n        In\n"
+                    "            Sn\n            {\"a\": " + "[" * n + "]" * n + "}\nEnd\n"))
+    return out
+
+
 # ----------------------------------------------------------------------------------------
 # input distribution
 # ----------------------------------------------------------------------------------------
@@ -226,11 +280,15 @@ def gen_texts(pid, seed, n):
     # hand-written shapes the two special cases of TextPipeline.v are about, and degenerate texts
     out += [("lone_string_guard", 'Task productionTask\n    Loop While "s"\n        Sv\nEnd\n'),
             ("lone_string_guard", 'Task productionTask\n    Condition\n        "s"\n    Passed\n        Sv\nEnd\n'),
-            ("empty", ""), ("blanks", "   "), ("only_comment", "# c\n")]
+            ("empty", ""), ("blanks", "   "), ("only_comment", "# c\n"),
+            ("nesting", "Task productionTask\n    Loop While " + "(" * 40 + "true" + ")" * 40 + "\n        Sv\nEnd\n"),
+            ("nesting", "Task productionTask\n    Loop While " + "!" * 60 + "true\n        Sv\nEnd\n"),
+            ("nesting", "Struct Sn\n    a: number[]\nEnd\nTask productionTask\n    Sv\n        In\n            Sn\n"
+                        "            {\"a\": " + "[" * 30 + "]" * 30 + "}\nEnd\n")]
     rng = random.Random("%d/%s/c16text/fuzz" % (seed, pid))
     bases = wf + nested + faulty[: len(faulty) // 2]
     out += kind_check.fuzz_texts(rng, bases, max(0, n - len(out)))
-    return out
+    return out + deep_texts()
 
 
 def payload_of(pid, kind, text, impl, model, why):
@@ -249,7 +307,17 @@ def slice_c16text(pid, cfg, tier, seed, workdir, rep, stats, findings):
     keep = []
     for kind, text in items:
         why = outside_model(text)
-        if why:
+        if why == "deep_nesting":
+            # beyond the model: the implementation alone, no comparison of the verdict
+            impl = run_impl(text)
+            stats["c16text_impl_only"] += 1
+            stats["c16text_impl_only:" + kind] += 1
+            w = judge_impl_only(impl)
+            if w:
+                rep.violation(payload_of(pid, kind, text, impl, None, w))
+            else:
+                stats["c16text_impl_only_verdict:" + str(impl["valid"])] += 1
+        elif why:
             stats["c16text_skipped:" + why] += 1
         else:
             keep.append((kind, text))
@@ -282,6 +350,12 @@ def slice_c16text(pid, cfg, tier, seed, workdir, rep, stats, findings):
 def replay_c16text(pid, cfg, payload, workdir):
     text = payload["text"]
     why = outside_model(text)
+    if why == "deep_nesting":
+        impl = run_impl(text)
+        w = judge_impl_only(impl)
+        return {"fails": bool(w), "why": w if w else
+                "deeply nested text (beyond the model): parse_string returns valid=%s, output %r" % (
+                    impl["valid"], impl["out"][:80])}
     if why:
         return {"fails": False, "why": "outside the model (%s): not compared" % why}
     impl = run_impl(text)
@@ -295,6 +369,6 @@ def replay_c16text(pid, cfg, payload, workdir):
 KIND = {"c16text": {"slice": slice_c16text, "replay": replay_c16text,
                     "rule": "program TEXTS: generated programs, seeded semantic faults, lists inside lists, and "
                             "character / token / line mutations, truncations, random token sequences and random "
-                            "bytes; TextPipeline.validate_text is evaluated on the characters inside coqc and its "
+                            "bytes, plus deeply nested texts judged on the implementation alone; TextPipeline.validate_text is evaluated on the characters inside coqc and its "
                             "verdict, 'printed something' and 'syntax error (no Process)' are compared with the real "
                             "parse_string; non-trivial = agreement; distinct = distinct texts"}}
